@@ -85,7 +85,9 @@ func (rf *ReportFeed) Status() []byte {
 	// displayed as non-RTCM messages.)
 	messageDisplay := "\nMessages\n\n"
 	for _, message := range rf.RecentMessages.GetMessages() {
-		messageDisplay += message.String() + "\n"
+		// The display includes a dump of the raw data, which is under the
+		// control of whoever is sending it - sanitise it like the buffers above.
+		messageDisplay += Sanitise(message.String()) + "\n"
 	}
 
 	reportBody := fmt.Sprintf(reportFormat,
